@@ -215,6 +215,14 @@ theorem callback_guard_raised (s : St) (v : Nat) (hc : s.cur = none) :
 
 example : sendBlocks (init 0) ∧ recvBlocks (init 0) ∧ (init 0).cur = none := by decide
 
+/-- **scheduler_never_calls_noGoroutine** [INV] — for every history of sends, receives, selects (by goroutines or inside
+    callbacks, any random choices) and scheduler iterations from the initial state, no queue entry is ever owned by
+    `$noGoroutine`, `$noGoroutine` is never on `$scheduled`, and `$runScheduled` never dies with
+    `TypeError: r is not a function`. -/
+theorem scheduler_never_calls_noGoroutine (cap : Nat) (es : List Ev) :
+    Out.typeErrorNotAFunction ∉ (run (init cap) es).1 ∧ GV.Proofs.CbGuard.Inv (run (init cap) es).2 :=
+  GV.Proofs.CbGuard.run_inv es (init cap) ⟨by simp [init], by simp [init], by simp [init]⟩
+
 /-- the former witness {callback send, goroutine receive, dequeue} is harmless now: error, the goroutine blocks, nothing to run -/
 theorem callback_guard_witness :
     (run (init 0) [.send none 7, .recv (some 1), .dequeue]).1 = [.errCannotBlock, .blocked, .idle] ∧
